@@ -9,7 +9,7 @@
    Reference: wordsum (big-endian 16-bit words, odd tail padded), oc (one's-complement fold),
    rfc1071 bs = 65535 - oc (wordsum bs); `reference p proto b0` = rfc1071 (pseudo-header ++ b0).
    udpmap x = if x = 0 then 0xffff else x (RFC 768). *)
-From GP Require Import Base C08Model C08Proofs C08Refs.
+From GP Require Import Base C08Model C08Proofs C08Refs C08Total.
 Open Scope Z_scope.
 
 (* ---- helpers ---- *)
@@ -228,6 +228,65 @@ Theorem C08_bitflip_ip4 : forall hdr ck h i payload e, bytes_ok hdr -> (20 <= le
 Proof. exact ip4_bitflip. Qed.
 Print Assumptions C08_bitflip_udp.
 Print Assumptions C08_bitflip_ip4.
+
+(* ---- verification of ANY byte string: decoding fails, or Correct = what the emitter writes over
+   the covered region, Actual = stored field, Valid = their equality (UDP: or stored 0; GRE: or
+   checksum flag clear).  Hence "accepts exactly the correct ones"; also covers flips of
+   length-determining fields (the result is computed over the new region).  No length bound. ---- *)
+
+Theorem C08_verify_total_tcp : forall p data, pseudo_ok p -> bytes_ok data -> len_ok p data ->
+  (exists c, tcp_verify p data = Err c) \/
+  (exists ck out, tcp_emit p data = Ok (ck, out) /\
+     tcp_verify p data = Ok {| v_valid := ck =? get16 data 16; v_correct := ck; v_actual := get16 data 16 |}).
+Proof. exact tcp_verify_total. Qed.
+
+Theorem C08_verify_total_udp : forall p data, pseudo_ok p -> bytes_ok data -> len_ok p data ->
+  (exists c, udp_verify p data = Err c) \/
+  (exists k ck out, let r := firstn k data in udp_decode data = Ok (r, get16 r 6) /\ udp_emit p r = Ok (ck, out) /\
+     udp_verify p data = Ok {| v_valid := (get16 r 6 =? 0) || (ck =? get16 r 6); v_correct := ck; v_actual := get16 r 6 |}).
+Proof. exact udp_verify_total. Qed.
+
+Theorem C08_verify_total_icmp6 : forall p data, pseudo_ok p -> bytes_ok data -> len_ok p data ->
+  (exists c, icmp6_verify p data = Err c) \/
+  (exists ck out, icmp6_emit p data = Ok (ck, out) /\
+     icmp6_verify p data = Ok {| v_valid := ck =? get16 data 2; v_correct := ck; v_actual := get16 data 2 |}).
+Proof. exact icmp6_verify_total. Qed.
+
+Theorem C08_verify_total_icmp4 : forall data, bytes_ok data ->
+  (exists c, icmp4_verify data = Err c) \/
+  (exists ck out, icmp4_emit data = Ok (ck, out) /\
+     icmp4_verify data = Ok {| v_valid := ck =? get16 data 2; v_correct := ck; v_actual := get16 data 2 |}).
+Proof. exact icmp4_verify_total. Qed.
+
+Theorem C08_verify_total_ip4 : forall data, bytes_ok data ->
+  (exists c, ip4_verify data = Err c) \/
+  (exists k ck out, let c := firstn k data in ip4_decode data = Ok (c, get16 c 10) /\ ip4_emit c = Ok (ck, out) /\
+     ip4_verify data = Ok {| v_valid := ck =? get16 c 10; v_correct := ck; v_actual := get16 c 10 |}).
+Proof. exact ip4_verify_total. Qed.
+
+Theorem C08_verify_total_gre : forall data, bytes_ok data ->
+  (exists c, gre_verify data = Err c) \/
+  (128 <= nthZ data 0 /\ exists ck out, gre_emit data = Ok (Some ck, out) /\
+     gre_verify data = Ok {| v_valid := ck =? get16 data 4; v_correct := ck; v_actual := get16 data 4 |}) \/
+  (nthZ data 0 < 128 /\ exists v, gre_verify data = Ok v /\ v_valid v = true).
+Proof. exact gre_verify_total. Qed.
+Print Assumptions C08_verify_total_udp.
+Print Assumptions C08_verify_total_gre.
+
+(* ICMP: every single bit of an emitted message is protected, no decode hypothesis needed *)
+Theorem C08_bitflip_icmp4_all : forall bs ck pk i, bytes_ok bs -> (8 <= length bs)%nat -> Z.of_nat (length bs) <= 131074 ->
+  icmp4_emit bs = Ok (ck, pk) -> (i < 8 * length pk)%nat ->
+  icmp4_verify (flip_bit pk i) =
+    Ok {| v_valid := false; v_correct := rfc1071 (put16 (flip_bit pk i) 2 0); v_actual := get16 (flip_bit pk i) 2 |}.
+Proof. exact icmp4_bitflip_all. Qed.
+
+Theorem C08_bitflip_icmp6_all : forall p bs ck pk i, pseudo_ok p -> len_ok p bs -> bytes_ok bs -> (4 <= length bs)%nat ->
+  Z.of_nat (length bs) <= 131034 ->
+  icmp6_emit p bs = Ok (ck, pk) -> (i < 8 * length pk)%nat ->
+  icmp6_verify p (flip_bit pk i) =
+    Ok {| v_valid := false; v_correct := reference p IPProtocolICMPv6 (put16 (flip_bit pk i) 2 0); v_actual := get16 (flip_bit pk i) 2 |}.
+Proof. exact icmp6_bitflip_all. Qed.
+Print Assumptions C08_bitflip_icmp6_all.
 
 (* ---- non-vacuity: concrete packets meeting the hypotheses ---- *)
 Definition ex_src4 : list Z := [10; 0; 0; 1].
